@@ -34,7 +34,7 @@ theorem wrap_concat (t : Str) (chunks : List Str) (hcontract : chunks.flatten = 
     ∃ lines, byteTextWrap chunks size = .ok lines ∧ lines.flatten = munge t ∧ ∀ l ∈ lines, blen l ≤ size := by
   obtain ⟨out, h1, h2, h3⟩ := wrapLoop_ok consts_ok.1 size h4 (fuelFor chunks) chunks [[]] (Nat.le_refl _)
     (by intro l hl; simp at hl; subst hl; simp [blen])
-  refine ⟨out, h1, ?_, h3⟩
+  refine ⟨out, by rw [byteTextWrap_eq consts_ok.1 _ _ h4]; exact h1, ?_, h3⟩
   rw [h2, ← hcontract]; simp
 
 example : ["ab".toList, "      ".toList, "cd".toList].flatten = munge "ab\tcd".toList := by decide
@@ -43,12 +43,12 @@ example : ["ab".toList, "      ".toList, "cd".toList].flatten = munge "ab\tcd".t
 theorem byteTextWrap_lines_nonempty (chunks : List Str) (hne : chunks ≠ []) (hall : ∀ c ∈ chunks, c ≠ [])
     (size : Nat) (h4 : 4 ≤ size) (lines : List Str) (h : byteTextWrap chunks size = .ok lines) :
     ∀ l ∈ lines, l ≠ [] := by
+  rw [byteTextWrap_eq consts_ok.1 _ _ h4] at h
   have := wrapLoop_ne consts_ok.1 size h4 _ _ _ _ h hall (Or.inl rfl)
   rcases this with h1 | h1
   · -- lines = [[]] is impossible: the chunks are not empty, so the flattened text is not empty
     obtain ⟨out, h2, h3, _⟩ := wrapLoop_ok consts_ok.1 size h4 (fuelFor chunks) chunks [[]] (Nat.le_refl _)
       (by intro l hl; simp at hl; subst hl; simp [blen])
-    unfold byteTextWrap at h
     rw [h2] at h
     injection h with h
     subst h
@@ -101,12 +101,13 @@ theorem ircWrap_fits_partial (chunks : List Str) (s : Str) (length : Nat)
     ∃ lines, ircWrap chunks s length = .ok lines ∧ ∀ l ∈ lines, blen l ≤ length := by
   obtain ⟨out, h1, _, h3⟩ := wrapLoop_ok consts_ok.1 (length - (parse s).maxSize) (by omega) (fuelFor chunks) chunks [[]]
     (Nat.le_refl _) (by intro l hl; simp at hl; subst hl; simp [blen])
-  have hb : byteTextWrap chunks (length - (parse s).maxSize) = .ok out := h1
+  have hb : byteTextWrap chunks (length - (parse s).maxSize) = .ok out := by
+    rw [byteTextWrap_eq consts_ok.1 _ _ (by omega)]; exact h1
   unfold coherent at hco
   rw [hb] at hco
   refine ⟨processLines none out, ?_, ?_⟩
   · unfold ircWrap
-    simp only [show ¬ (length < (parse s).maxSize) by omega, ↓reduceIte, hb]
+    simp only [hb]
   · intro l hl
     have := processLines_fits consts_ok.2.1 (parse s).maxSize (length - (parse s).maxSize) out none hco h3 l hl
     omega
@@ -175,10 +176,11 @@ theorem ircWrap_struct (chunks : List Str) (s : Str) (length : Nat) (h4 : (parse
       (∀ l ∈ raw, blen l ≤ length - (parse s).maxSize) := by
   obtain ⟨out, h1, h2, h3⟩ := wrapLoop_ok consts_ok.1 (length - (parse s).maxSize) (by omega) (fuelFor chunks) chunks [[]]
     (Nat.le_refl _) (by intro l hl; simp at hl; subst hl; simp [blen])
-  have hb : byteTextWrap chunks (length - (parse s).maxSize) = .ok out := h1
+  have hb : byteTextWrap chunks (length - (parse s).maxSize) = .ok out := by
+    rw [byteTextWrap_eq consts_ok.1 _ _ (by omega)]; exact h1
   refine ⟨out, hb, ?_, by rw [h2]; simp, h3⟩
   unfold ircWrap
-  simp only [show ¬ (length < (parse s).maxSize) by omega, ↓reduceIte, hb]
+  simp only [hb]
 
 /-- number of lines: at most 8 × the bytes of the text (never 0) -/
 theorem raw_length_le (chunks : List Str) (t : Str) (hcontract : chunks.flatten = munge t) (hne : ∀ c ∈ chunks, c ≠ [])
@@ -900,6 +902,65 @@ theorem stale_belief_overflows (e : Env) (p : Str) (o : Out) (hfull : blen (wire
     (hstale : blen e.botPrefix < blen p) : 512 < blen (wireAs p o) := by
   have := relayed_len e p o
   omega
+
+/-! ## termination for every size and every `reply.mores.length` -/
+
+/-- `byteTextWrap(t, size)` terminates normally for EVERY size (0 stands for the zero or negative sizes
+the subtractions of its callers can produce): since the fix `size = max(size, 4)` a line can always
+hold one character.  The lines concatenate to the munged text and have at most `max size 4` bytes.
+(Before: `splitBytes` returned an empty first part for a size below 4 and `while words:` never ended —
+e.g. `reply.mores.length = 45` with the French suffix texts.) -/
+theorem byteTextWrap_total (t : Str) (chunks : List Str) (hcontract : chunks.flatten = munge t) (size : Nat) :
+    ∃ lines, byteTextWrap chunks size = .ok lines ∧ lines.flatten = munge t ∧ ∀ l ∈ lines, blen l ≤ max size 4 := by
+  rw [byteTextWrap_clamped consts_ok.1]
+  exact wrap_concat t chunks hcontract (max size 4) (by omega)
+
+theorem ircWrap_total (chunks : List Str) (s : Str) (hcontract : chunks.flatten = munge s) (length : Nat) :
+    ∃ lines, ircWrap chunks s length = .ok lines := by
+  obtain ⟨raw, h, _, _⟩ := byteTextWrap_total s chunks hcontract (length - (parse s).maxSize)
+  exact ⟨processLines none raw, by unfold ircWrap; simp only [h]⟩
+
+/-- A chunked reply always comes out, whatever `reply.mores.length` (even one that leaves no room after
+the suffix reserve): some messages are sent, at most `reply.mores.maximum` in all. -/
+theorem reply_total (e : Env) (cfg : Cfg) (chunks : List Str) (s : Str) (allowed : Nat) (s1 : Str)
+    (hprep : prepare e cfg s = some (allowed, s1, false)) (hcontract : chunks.flatten = munge s1) :
+    ∃ now stored, reply e cfg chunks s = .sent now stored ∧
+      now.length + (stored.getD []).length ≤ cfg.maximumMores := by
+  obtain ⟨lines, hw⟩ := ircWrap_total chunks s1 hcontract (allowed - suffixReserve e.texts (blen s1))
+  have hrep : reply e cfg chunks s = deliver e cfg (lines.take cfg.maximumMores) := by
+    unfold reply; rw [hprep]; simp only [Bool.false_eq_true, ↓reduceIte, hw]
+  rw [hrep, deliver_eq]
+  refine ⟨_, _, rfl, ?_⟩
+  have hd := deliveryOrder_length e (lines.take cfg.maximumMores)
+  have ht : (lines.take cfg.maximumMores).length ≤ cfg.maximumMores := List.length_take_le _ _
+  split
+  · simp only [Option.getD_none, List.length_nil, List.length_take]; omega
+  · simp only [Option.getD_some, List.length_reverse, List.length_take, List.length_drop]; omega
+
+/-! ## several replies in one command invocation; the two queues of `Irc.takeMsg` -/
+
+/-- the attributes each of the successive final replies of ONE command invocation is built with: every
+`reply()` ends with `_resetReplyAttributes()` (its `finally:` clause) -/
+def replySeq (reset : Attrs) : Attrs → List Kw → List Attrs
+  | _, [] => []
+  | a, k :: ks => a.apply k :: replySeq reset reset ks
+
+/-- … so no reply depends on the keywords of an earlier one (in particular `action=True` /
+`noLengthCheck=True` of a first reply does not switch the length check off for the next) -/
+theorem attrs_reset_between_replies (reset : Attrs) (ks : List Kw) :
+    replySeq reset reset ks = ks.map reset.apply := by
+  induction ks with
+  | nil => rfl
+  | cons k ks ih => simp [replySeq, ih]
+
+/-- `Irc.takeMsg` empties the fast queue (`sendMsg`) before the ordinary one (`queueMsg`) -/
+def takeOrder (fast normal : List Out) : List Out := fast ++ normal
+
+/-- all the messages of one reply go through the SAME function (`sendMsg = irc.sendMsg if sendImmediately
+else irc.queueMsg`), so they leave in the order they were produced, `sendImmediately` or not -/
+theorem same_queue_order (sendImmediately : Bool) (now : List Out) :
+    (if sendImmediately then takeOrder now [] else takeOrder [] now) = now := by
+  cases sendImmediately <;> simp [takeOrder]
 
 /-! ## non-vacuity: a concrete chunked reply meets the hypotheses of the theorems above -/
 
